@@ -215,6 +215,49 @@ def signatures():
       yield "sig:%s/%s" % (fid, aid), SIG_PRELUDE + ft.replace("{A}", at) + SIG_EPILOGUE
 
 
+# ---------------------------------------------------------------- directive comments
+
+# A fixed program with a multi-line call, an attribute error, a name error in a class body and a method;
+# between its statements there are SLOTS for stand-alone comment lines, and three lines can carry a
+# trailing comment.  Every assignment of the comment menu to the slots is a program.
+DIR_LINES = [
+    "def f(a):", "  return a",          # slot 0 before
+    "x1 = f(", "    1)",                # slot 1 before; trailing T0 on first line, T1 on inner line
+    "x2 = [].nope",                     # slot 2 before; trailing T2
+    "x3 = f(2)",                        # slot 3 before
+    "class K:", "  y = undefined_nm",   # slot 4 before
+    "  def m(self):", "    return self.zz",   # slot 5 before (inside the class)
+    "x4 = 1",                           # slot 6 before
+]
+DIR_SLOT_AT = {0: 0, 1: 2, 2: 4, 3: 5, 4: 6, 5: 8, 6: 10}   # slot -> index in DIR_LINES it precedes
+DIR_TRAIL_AT = {0: 2, 1: 3, 2: 4}
+DIR_MENU = {"-": None, "dA": "# pytype: disable=attribute-error", "eA": "# pytype: enable=attribute-error",
+            "dN": "# pytype: disable=name-error", "eN": "# pytype: enable=name-error", "ig": "# type: ignore",
+            "bad": "# pytype: disable=no-such-error-class"}
+
+
+def directive_programs(tier):
+  """Yields (id, source)."""
+  if tier == "quick":
+    slots, menu, trails = (1, 2, 3, 4, 6), ("-", "dA", "eA"), (("-", "-", "-"), ("dA", "-", "-"), ("-", "dA", "-"), ("-", "-", "ig"))
+  else:
+    slots, menu, trails = (1, 2, 3, 4, 5, 6), ("-", "dA", "eA", "dN"), (
+        ("-", "-", "-"), ("dA", "-", "-"), ("-", "dA", "-"), ("-", "-", "ig"), ("ig", "-", "dA"), ("-", "bad", "-"))
+  for combo in itertools.product(menu, repeat=len(slots)):
+    for tr in trails:
+      lines = list(DIR_LINES)
+      for t, m in enumerate(tr):
+        if DIR_MENU[m]:
+          lines[DIR_TRAIL_AT[t]] += "  " + DIR_MENU[m]
+      out = []
+      ins = {DIR_SLOT_AT[sl]: DIR_MENU[m] for sl, m in zip(slots, combo) if DIR_MENU[m]}
+      for i, ln in enumerate(lines):
+        if i in ins:
+          out.append(ln[:len(ln) - len(ln.lstrip())] + ins[i])
+        out.append(ln)
+      yield "dir:%s/%s" % ("".join(m[0] if m == "-" else m for m in combo), ",".join(tr)), "\n".join(out) + "\n"
+
+
 def expression_programs(depth, contexts=("mod", "fn"), core_only=False):
   for eid, stmt in expressions(depth, core_only):
     for ctx in contexts:
